@@ -431,6 +431,54 @@ func makePlan(defs []*worldDef, thorough bool) *plan {
 			return cs
 		})
 	}
+	// ---- where each side of the filter comes from: {nothing, flag, configuration, flag over a different configured value}
+	// for include x the same four for exclude (16 combinations); a flag overrides only its own setting (git-lfs-fetch(1))
+	srcNames := []string{"none", "flag", "cfg", "flag-over-cfg"}
+	sourceFilter := func(si, sx int) filterSpec {
+		f := filterSpec{name: "inc=" + srcNames[si] + ",exc=" + srcNames[sx]}
+		switch si { // include "a.bin,b.bin" leaves out dir/c.bin (and e.bin, 'sp ace.bin'); the decoy configuration would select dir/ only
+		case 1:
+			f.cliI = sp("a.bin,b.bin")
+		case 2:
+			f.cfgI = sp("a.bin,b.bin")
+		case 3:
+			f.cliI, f.cfgI = sp("a.bin,b.bin"), sp("dir/")
+		}
+		switch sx { // exclude "b.bin"; the decoy configuration would exclude a.bin instead
+		case 1:
+			f.cliX = sp("b.bin")
+		case 2:
+			f.cfgX = sp("b.bin")
+		case 3:
+			f.cliX, f.cfgX = sp("b.bin"), sp("a.bin")
+		}
+		return f
+	}
+	for wi, d := range defs {
+		wi, d := wi, d
+		if !thorough && wi != 0 {
+			continue
+		}
+		add("filter-sources/"+d.name, func(in chooser) *caseSpec {
+			cs := &caseSpec{world: wi, cmd: []cmdKind{cFetch, cPull}[in(2)], head: "main", lco: lAll}
+			cs.needed = cs.tree(defs).neededOids()
+			var masks []int
+			switch {
+			case thorough:
+				for m := 0; m < 1<<len(cs.needed); m++ {
+					masks = append(masks, m)
+				}
+			case cs.cmd == cFetch:
+				masks = []int{0}
+			default:
+				masks = []int{0, 1<<len(cs.needed) - 1}
+			}
+			cs.loc = maskLoc(masks[in(len(masks))], len(cs.needed), 1)
+			si := in(4)
+			cs.filter = sourceFilter(si, in(4))
+			return cs
+		})
+	}
 	// ---- perturbation slices (world "linear" at main: a.bin, b.bin, dir/c.bin)
 	pairGen := func(wi int, cmd cmdKind, p1, p2 string, presets []preset, filters []filterSpec, lcos []lcoVar, lack []bool) func(in chooser) *caseSpec {
 		return func(in chooser) *caseSpec {
@@ -1279,7 +1327,7 @@ func TestVerifC04(t *testing.T) {
 	c.Rule = "one case = (slice, world, checked-out ref, command with its ref/path arguments, location of every object the relevant tree needs {absent, local, reference store}, " +
 		"include/exclude settings (-I/-X, lfs.fetchinclude/lfs.fetchexclude, path arguments of lfs checkout), GIT_LFS_SKIP_SMUDGE, storage layout {default, lfs.storage, clone --reference}, " +
 		"per-file working-tree perturbation, endpoint {complete, lacking the object of a.bin}); the explored set is a union of COMPLETE products (slices; sizes under bounds.slices): " +
-		"fetch/* = (ref checked out, ref argument) x every subset of needed objects already local x filters; pull/* = ref x subsets x filters x skip-smudge; " +
+		"fetch/* = (ref checked out, ref argument) x every subset of needed objects already local x filters; filter-sources/* = {fetch, pull} x store subsets x the source of the include list {none, -I, lfs.fetchinclude, -I over another configured value} x the same four sources of the exclude list; pull/* = ref x subsets x filters x skip-smudge; " +
 		"pull-perturb2, lco-perturb2 = every ordered pair of perturbation states on two files x store presets x filters / path arguments; *-perturb1* = every state of one file x store presets {none, all, only that object, all but it} x filters x endpoint / invocation variants of lfs checkout (incl. from a sub-directory); " +
 		"storage-* = {fetch, pull, lfs checkout} x every location vector (3^3 with a reference store, 2^3 with lfs.storage) x 2 selections; clone/*, clone-reference, git-checkout/* = branch or (from,to) pair x subsets x configured filters x skip-smudge.  " +
 		"distinct_nontrivial = distinct cases other than the plain one (empty local store, no filter, no perturbation, default storage, no skip)"
